@@ -235,6 +235,13 @@ def run_case(res, case, sigs, attempt=0):
                             reply = peer.associate([(1, sop.encode(), (ts.encode(),))], max_len=client_max)
                             peer.send_dimse(1, {R.TAG_AFFECTED_SOP_CLASS: sop, R.TAG_COMMAND_FIELD: 0x0020,
                                                 R.TAG_MESSAGE_ID: msg_id, R.TAG_PRIORITY: 0}, enc(query))
+                            pipelined = i % 2 == 0
+                            msg_id2 = (msg_id + 1) % 65536
+                            if pipelined:
+                                # a second request follows at once, before any response was read
+                                peer.send_dimse(1, {R.TAG_AFFECTED_SOP_CLASS: sop, R.TAG_COMMAND_FIELD: 0x0020,
+                                                    R.TAG_MESSAGE_ID: msg_id2, R.TAG_PRIORITY: 0}, enc(query))
+                                res.count('sim.second-request-pipelined')
                             got = []
                             wire_count = 0
                             while True:
@@ -252,6 +259,26 @@ def run_case(res, case, sigs, attempt=0):
                                 got.append((data or None, st))
                                 if st not in (0xFF00, 0xFF01):
                                     break
+                            if pipelined:
+                                # the second request is an operation of its own: answered after the
+                                # first, with its own id, with what the handler produces for it
+                                got2 = []
+                                while True:
+                                    item = peer.recv_dimse()
+                                    if isinstance(item, dict):
+                                        raise AssertionError('second request: unexpected PDU %r' % item)
+                                    ctx, cmd, data, lengths, problems = item
+                                    if cmd.get(R.TAG_MESSAGE_ID_RSP) != msg_id2 or ctx != 1 or problems:
+                                        raise AssertionError('second request: response %r on ctx %r: %r' % (
+                                            cmd, ctx, problems))
+                                    got2.append((data or None, cmd.get(R.TAG_STATUS)))
+                                    if got2[-1][1] not in (0xFF00, 0xFF01):
+                                        break
+                                if got2 != got or seen_queries[1:] != seen_queries[:1]:
+                                    raise AssertionError('second pipelined request answered with %d responses '
+                                                         '(first: %d); handler saw %d queries' % (
+                                                             len(got2), len(got), len(seen_queries)))
+                                del seen_queries[1:]
                             peer.release()
                         finally:
                             peer.close()
@@ -274,6 +301,23 @@ def run_case(res, case, sigs, attempt=0):
             else:
                 # library SCU against a reference SCP ending with success / failure / cancel
                 final_kind = r.choice([0x0000, 0xA700, 0xC001, 0xFE00])
+                r3 = rng(seed, 'c16-refscp', i)
+                # Affected SOP Class UID is optional in a C-FIND-RSP (PS3.7 Table 9.1-2: U(=))
+                omit_class = r3.random() < 0.3
+                # a provider that hangs up right after its final response, and a user that is slow to
+                # pick the responses up: what has arrived is still delivered
+                hangs_up = r3.random() < 0.3
+                if omit_class:
+                    res.count('sim.responses-without-affected-sop-class')
+                if hangs_up:
+                    res.count('sim.provider-hangs-up-after-final')
+
+                def rsp_fields(cmd, status):
+                    fields = {R.TAG_AFFECTED_SOP_CLASS: sop, R.TAG_COMMAND_FIELD: 0x8020,
+                              R.TAG_MESSAGE_ID_RSP: cmd[R.TAG_MESSAGE_ID], R.TAG_STATUS: status}
+                    if omit_class:
+                        del fields[R.TAG_AFFECTED_SOP_CLASS]
+                    return fields
 
                 def handler(peer):
                     peer.accept(max_len=server_max)
@@ -281,13 +325,12 @@ def run_case(res, case, sigs, attempt=0):
                     seen_queries.append(data)
                     for k, (raw, st) in enumerate(want):
                         # "data set present" is any Command Data Set Type but 0101H
-                        peer.send_dimse(ctx, {R.TAG_AFFECTED_SOP_CLASS: sop, R.TAG_COMMAND_FIELD: 0x8020,
-                                              R.TAG_MESSAGE_ID_RSP: cmd[R.TAG_MESSAGE_ID],
-                                              R.TAG_STATUS: st}, raw,
+                        peer.send_dimse(ctx, rsp_fields(cmd, st), raw,
                                         data_set_type=[0x0001, 0x0000, 0x0102, 0x0001, 0xFFFF][(i + k) % 5])
-                    peer.send_dimse(ctx, {R.TAG_AFFECTED_SOP_CLASS: sop, R.TAG_COMMAND_FIELD: 0x8020,
-                                          R.TAG_MESSAGE_ID_RSP: cmd[R.TAG_MESSAGE_ID],
-                                          R.TAG_STATUS: final_kind})
+                    peer.send_dimse(ctx, rsp_fields(cmd, final_kind))
+                    if hangs_up:
+                        peer.close()
+                        return 0
                     nxt = peer.recv_pdu()
                     if nxt['type'] == 5:
                         peer.send_pdu({'type': 6})
@@ -299,10 +342,21 @@ def run_case(res, case, sigs, attempt=0):
                     client.timeout = 5
                     client.add_scu(sopclass.qr_find_scu)
                     remote = {'aet': 'REFSCP', 'address': '127.0.0.1', 'port': srv.port}
-                    with client.request_association(remote) as assoc:
-                        service = assoc.get_scu(sop)
-                        got = [(enc(d) if d is not None else None, int(s))
-                               for d, s in service(query, msg_id)]
+                    collected = []
+                    try:
+                        with client.request_association(remote) as assoc:
+                            service = assoc.get_scu(sop)
+                            if hangs_up:
+                                import time
+                                time.sleep(0.3)
+                            for d, s in service(query, msg_id):
+                                collected.append((enc(d) if d is not None else None, int(s)))
+                    except exceptions.NetDICOMError:
+                        # (how the context manager leaves an association the peer has already dropped
+                        # is C14's subject: here only what was delivered counts)
+                        if not (hangs_up and len(collected) == len(want) + 1):
+                            raise
+                    got = collected
                 finally:
                     srv.close()
                 if srv.errors:
